@@ -340,9 +340,9 @@ def shrink(c):
 
 def extra_checks(ctx):
     ctx["stats"]["exhaustive"] = True
-    ctx["stats"]["extra"] = {"exhaustive_scopes": "all histories of <= %d batches x 0..2 blocks over the block-size alphabet "
+    ctx["stats"].setdefault("extra", {}).update({"exhaustive_scopes": "all histories of <= %d batches x 0..2 blocks over the block-size alphabet "
                              "{17,42,43,92} at limit 100 (records 25/50/51/100) from the empty directory; every crash point of "
-                             "the listed histories" % (3 if ctx["tier"] == "thorough" else 2)}
+                             "the listed histories" % (3 if ctx["tier"] == "thorough" else 2)})
     return []
 
 
